@@ -349,6 +349,17 @@ func runC11(sc *Scenario, st *Stats) []Violation {
 		for k := 0; k < 3 && len(reads) > 0; k++ {
 			cands = append(cands, Fault{Call: reads[r.Intn(len(reads))], Kind: FErr})
 		}
+		if len(cands) > 16 && len(sc.Init) > 250 {
+			// scale cases: a sample of the candidates (first, last, and evenly spaced ones)
+			step := len(cands) / 12
+			var pickd []Fault
+			for i, f := range cands {
+				if i < 3 || i >= len(cands)-3 || i%step == 0 {
+					pickd = append(pickd, f)
+				}
+			}
+			cands = pickd
+		}
 		if len(sc.Faults) > 0 {
 			cands = sc.Faults
 		}
